@@ -269,8 +269,18 @@ impl<'e> Worker<'e> {
         }
     }
 
-    fn unit_cases(&mut self, idx: u64, seed: u64, mode: &str, base: &Base, cases: Vec<FaultCase>, fault_prop: Props) {
+    fn unit_cases(&mut self, idx: u64, seed: u64, mode: &str, base: &Base, mut cases: Vec<FaultCase>, fault_prop: Props) {
         self.note_cfg(&base.cfg);
+        if cfg!(miri) && cases.len() > 8 {
+            // under Miri a unit is a deterministic sample of 8 of its cases (interpretation is ~1000x slower)
+            let stride = cases.len() / 8;
+            let mut i = 0;
+            cases.retain(|_| {
+                i += 1;
+                (i - 1) % stride == (seed as usize) % stride
+            });
+            cases.truncate(8);
+        }
         for case in cases {
             let e = self.res.fault_kinds.entry(case.kind.to_string()).or_insert((0, 0));
             e.0 += 1;
